@@ -219,6 +219,7 @@ void check_view(Ctx& c, View& v, const char* after, bool full) {
     VF_CHECK(cp.is_compatible(f) && f.is_compatible(cp), "copy-compatible", "copy not compatible with its source");
   }
   if (s.is_mem) check_mem_bits(s, after);
+  v.key.clear();  // the suspicion that this view's count is wrong (known finding) is refuted by the comparison above
 }
 
 void check_all(Ctx& c, const char* after, bool full) {
@@ -346,7 +347,7 @@ void note_fresh_view(Ctx& c, const Store& s, const char* how) {
 }
 
 // new view of caller memory: mode 0 = wrap (read-only), 1 = writable_wrap, 2 = deserialize(bytes) from the memory
-void view_from_memory(Ctx& c, const std::shared_ptr<Store>& s, int mode) {
+void view_from_memory(Ctx& c, std::shared_ptr<Store> s, int mode) {
   View v;
   v.key = s->memkey;
   v.dirty_m = s->mem_dirty || !s->memkey.empty();
@@ -367,13 +368,17 @@ void view_from_memory(Ctx& c, const std::shared_ptr<Store>& s, int mode) {
   }
   View& nv = add_view(c, std::move(v));
   check_view(c, nv, mode == 0 ? "wrap" : mode == 1 ? "writable_wrap" : "deserialize(memory)", false);
+  s->memkey.clear();  // the count field of the memory was just read and found right (or marked "recompute")
   note_fresh_view(c, *s, mode == 0 ? "wrap" : mode == 1 ? "writable_wrap" : "deserialize");
 }
 
 // serialize view vi, verify the image, restore it: mode 0 deserialize(bytes), 1 deserialize(stream), 2 wrap, 3 writable_wrap
 void op_ser(Ctx& c, size_t vi, int mode, unsigned hdr) {
-  View& v = c.views[vi];
-  Store& s = *v.s;
+  View& v = c.views[vi];       // note: v dangles once a view is added below; everything needed later is copied first
+  std::shared_ptr<Store> sp = v.s;
+  Store& s = *sp;
+  const bool src_wwrap = s.wwrap_update;
+  const std::string vkey = v.key;
   const uint64_t pc = s.bits.popcount();
   const bool empty = pc == 0;
   std::vector<uint8_t> img;
@@ -412,14 +417,13 @@ void op_ser(Ctx& c, size_t vi, int mode, unsigned hdr) {
   if (mode <= 1) {
     auto o = new_store(s.cfg);
     o->bits = s.bits; o->must = s.must;
-    View nv; nv.s = o; nv.kind = K_DESER; nv.key = v.key; nv.dirty_m = img_dirty;
+    View nv; nv.s = o; nv.kind = K_DESER; nv.key = vkey; nv.dirty_m = img_dirty;
     if (stream) {
       std::istringstream is(std::string(img.begin(), img.end()), std::ios::binary);
       nv.f.reset(new bloom_filter(bloom_filter::deserialize(is)));
     } else {
       nv.f.reset(new bloom_filter(bloom_filter::deserialize(img.data() + hdr, img.size() - hdr)));
     }
-    const bool src_wwrap = s.wwrap_update;
     View& r = add_view(c, std::move(nv));
     check_view(c, r, stream ? "deserialize(stream)" : "deserialize(bytes)", false);
     if (src_wwrap) { c.nt = true; vf::label("view-after-wwrap-update"); vf::label("fresh:serialize-deserialize"); }
@@ -428,7 +432,6 @@ void op_ser(Ctx& c, size_t vi, int mode, unsigned hdr) {
   // the image becomes new caller memory
   auto o = new_store(s.cfg);
   o->bits = s.bits; o->must = s.must;
-  const std::string vkey = v.key;
   if (empty) {
     // the 24-byte empty form holds no bit array: wrap() hands out a detached empty filter, writable_wrap refuses
     if (mode == 2) {
@@ -449,7 +452,7 @@ void op_ser(Ctx& c, size_t vi, int mode, unsigned hdr) {
   o->memkey = vkey; o->mem_dirty = img_dirty;
   remember_memstore(c, o);
   view_from_memory(c, o, mode == 2 ? 0 : 1);
-  if (s.wwrap_update) { c.nt = true; vf::label("view-after-wwrap-update"); vf::label("fresh:serialize-wrap"); }
+  if (src_wwrap) { c.nt = true; vf::label("view-after-wwrap-update"); vf::label("fresh:serialize-wrap"); }
 }
 
 // ---------------------------------------------------------------- writes
@@ -489,11 +492,18 @@ void do_insert(Ctx& c, size_t vi, const Item& it, bool qau) {
   if (v.kind == K_WRAP_RW && newbits > 0) { s.wwrap_update = true; vf::label("wwrap-update"); }
   if (!qau) {
     v.dirty_m = true;
-    if (s.is_mem && s.memkey.empty() && newbits > 0) s.memkey = KEY_A;
+    if (s.is_mem) {
+      s.mem_dirty = true;  // a correct implementation marks the count in memory as "to be recomputed"; the pinned tree leaves it stale
+      if (s.memkey.empty() && newbits > 0) s.memkey = KEY_A;
+    }
   } else {
-    if (v.dirty_m && v.key.empty()) v.key = KEY_B;
+    const bool was_dirty = v.dirty_m;
+    if (was_dirty && v.key.empty()) v.key = KEY_B;
     v.dirty_m = false;
-    if (s.is_mem) { s.memkey = v.key; s.mem_dirty = false; }
+    if (s.is_mem) {
+      if (!was_dirty) { s.memkey = v.key; s.mem_dirty = false; }  // exact count written through
+      else if (s.memkey.empty()) s.memkey = v.key;                  // otherwise the memory keeps whatever was wrong with it before
+    }
   }
 }
 
@@ -602,7 +612,9 @@ void op_setop(Ctx& c, const Op& op, bool is_union) {
            "is_compatible " << dst.f->is_compatible(*src.f) << ", expected " << compat);
   if (!compat) {
     bool refused = false;
-    try { if (is_union) dst.f->union_with(*src.f); else dst.f->intersect(*src.f); } catch (const std::invalid_argument&) { refused = true; }
+    try { if (is_union) dst.f->union_with(*src.f); else dst.f->intersect(*src.f); }
+    catch (const std::invalid_argument&) { refused = true; }
+    catch (const std::logic_error&) { refused = dst.ro; }  // a read-only target may be refused for that reason first
     VF_CHECK(refused, "incompatible-refused", (is_union ? "union_with" : "intersect") << " of incompatible filters was not refused");
     vf::label("incompatible-refused");
     return;  // the per-step comparison shows that nothing changed
@@ -690,6 +702,7 @@ void prop(const Case& cs) {
   c.disc = cs.get("disc", 0) != 0;
   // first view
   op_new(c, Op{"new", {cs.get("k0", 0), 0, cs.get("rnd", 1)}});
+  if (cs.get("ww0", 0) && !c.views.empty() && c.views[0].s->is_mem) view_from_memory(c, c.views[0].s, 1);  // start with a writable wrap of the fresh memory
   const bool big = c.base.cap > (1u << 16);
   for (const Op& op : cs.ops) {
     ++c.step;
@@ -778,7 +791,7 @@ void prop_accuracy(const Case& cs) {
   VF_CHECK(static_cast<double>(fp) <= bound, "false-positive-rate", "n=" << n << " target p=" << p << ": " << fp << " false positives in " << N << " fresh probes, bound " << bound
            << " (fill " << static_cast<double>(pc) / s.cfg.cap << ")");
   const double ratio = (static_cast<double>(fp) / N) / p;
-  if (static_cast<double>(fp) > 0.85 * bound) { vf::label("fpr-within-15%-of-bound"); vf::label("near:p=" + std::to_string(p) + ",n=" + std::to_string(n) + ",fp=" + std::to_string(fp) + ",bound=" + std::to_string(bound)); }
+  if (static_cast<double>(fp) > 0.85 * bound) vf::label("fpr-within-15%-of-bound");
   vf::label(ratio <= 0.5 ? "fpr/target<=0.5" : ratio <= 1.0 ? "fpr/target<=1.0" : ratio <= 1.25 ? "fpr/target<=1.25" : "fpr/target>1.25");
   vf::label("accuracy");
   vf::nontrivial();
@@ -811,6 +824,7 @@ rc::Gen<Case> gen_main() {
                     {"seed", rc::gen::weightedOneOf<int64_t>({{1, range(0, 1)}, {3, range(2, 1 << 20)}})},
                     {"k0", rc::gen::weightedOneOf<int64_t>({{2, range(0, 1)}, {5, range(2, 3)}, {1, range(5, 6)}})},
                     {"disc", range(0, 1)},
+                    {"ww0", range(0, 1)},
                     {"rnd", range(1, 1 << 20)}},
                    oplist(opg, 3, 0.5));
 }
@@ -844,7 +858,7 @@ int main(int argc, char** argv) {
   std::vector<vf::Sub> subs;
   subs.push_back({"main", gen_main, prop, 1.0});
   subs.push_back({"large", gen_large, prop, 0.02, 60});
-  subs.push_back({"accuracy", gen_accuracy, prop_accuracy, 0.03});
+  subs.push_back({"accuracy", gen_accuracy, prop_accuracy, 0.015});
   return vf::main_driver(argc, argv, "C15", "c15_bloom",
                          "case = base filter config (num_bits incl. non-multiples of 64, hashes, seed, owned or caller memory, caller discipline) + generated history over up to 7 "
                          "live views (create/initialize, typed update, query_and_update, bulk, duplicates, wrap/writable_wrap/deserialize of caller memory, serialize->restore, "
